@@ -19,5 +19,6 @@ CFG = dict(
     explanation="PARTIAL (level other). Lean: the one consensus-path range over a Go map gives the same supply for every permutation of the entries; a restart after a committed block "
                 "is indistinguishable for later blocks when blocks read persistent and transient stores only; if no block's result depends on process memory the node that never stops and "
                 "the node that runs every block in a fresh process agree after every history, so a disagreement proves a read of process memory (witness: a shared constant overwritten "
-                "in place). Behavioural: four replicas must agree on app hash, tx codes and gas at every height; the restarted replica must reload the same height and commit id.",
+                "in place). Behavioural: four replicas must agree on app hash, tx codes and gas at every height; the restarted replica must reload the same height and commit id."
+                " Regenerated table Gen/MapRanges (every range over a map in /repo's non-test code) equals the classified expectation (ranges_as_expected); the only map-ordered loop in block processing is the burner's, proved order-independent.",
 )
